@@ -1085,7 +1085,7 @@ fn driven_stage(seed: u64, count: u64, out: &mut Out, only: Option<(u64, u64)>) 
             // a sender funded only by the transaction before it: when its attempt runs first it fails for
             // lack of funds - an attempt the worker discards - and is retried later, possibly on a worker
             // that has just discarded another attempt; its script reads the holder through the facade
-            let poor = s_addr(9);
+            let poor = t_addr(3); // table[7]: absent from the database, so the scripts can read its balance
             let fs = rng.below(4) as usize;
             let fn_ = txs.iter().filter(|t| t.caller == s_addr(fs)).count() as u64;
             txs.push(TxEnv { caller: s_addr(fs), nonce: fn_, gas_limit: 21_000, gas_price: 1, chain_id: Some(1), kind: TxKind::Call(poor), value: U256::from(10u64).pow(U256::from(15)), ..Default::default() });
@@ -1094,6 +1094,14 @@ fn driven_stage(seed: u64, count: u64, out: &mut Out, only: Option<(u64, u64)>) 
                 data.extend_from_slice(&[1, H, k, 0]);
             }
             txs.push(TxEnv { caller: poor, nonce: 0, gas_limit: 500_000, gas_price: 1, chain_id: Some(1), kind: TxKind::Call(P0), data: data.into(), ..Default::default() });
+            // ... and readers of that sender's balance: a worker that discarded an attempt of it must not
+            // keep the account (as absent) in its journal for the transactions it runs next
+            for _ in 0..rng.range(1, 2) {
+                let rs = rng.below(4) as usize;
+                let rn = txs.iter().filter(|t| t.caller == s_addr(rs)).count() as u64;
+                let data = vec![txs.len() as u8, 0, 0, 7, 0, 0, 0, H, 0, 0];
+                txs.push(TxEnv { caller: s_addr(rs), nonce: rn, gas_limit: 500_000, gas_price: 1, chain_id: Some(1), kind: TxKind::Call(P0), data: data.into(), ..Default::default() });
+            }
         }
         let emptier = txs.iter().position(|t| t.data.len() == 6 && t.data[2] == 2 && t.data[5] == 0).unwrap_or(emptier);
         for (i, t) in txs.iter().enumerate() {
